@@ -35,6 +35,8 @@ pub struct RNode {
     pub parent: Option<Id>,
     pub children: Vec<Id>,
     pub tmpl: Option<Id>,
+    /// shadow roots (template-contents fragments of declarative shadow root templates)
+    pub shadow: Vec<Id>,
 }
 
 #[derive(Default)]
@@ -46,10 +48,10 @@ pub const DOC: Id = 0;
 
 impl RefDom {
     pub fn new() -> RefDom {
-        RefDom { nodes: vec![RNode { kind: RKind::Document, parent: None, children: vec![], tmpl: None }] }
+        RefDom { nodes: vec![RNode { kind: RKind::Document, parent: None, children: vec![], tmpl: None, shadow: vec![] }] }
     }
     pub fn add(&mut self, kind: RKind) -> Id {
-        self.nodes.push(RNode { kind, parent: None, children: vec![], tmpl: None });
+        self.nodes.push(RNode { kind, parent: None, children: vec![], tmpl: None, shadow: vec![] });
         self.nodes.len() - 1
     }
     pub fn new_element(&mut self, ns: &'static str, local: &str, attrs: Vec<RAttr>, dup: bool) -> Id {
@@ -166,6 +168,9 @@ impl<'a> TreeView for RefView<'a> {
     }
     fn children(&self, h: &Id) -> Vec<Id> {
         self.0.nodes[*h].children.clone()
+    }
+    fn shadow_roots(&self, h: &Id) -> Vec<Id> {
+        self.0.nodes[*h].shadow.clone()
     }
     fn template_contents(&self, h: &Id) -> Option<Id> {
         self.0.nodes[*h].tmpl
